@@ -87,6 +87,12 @@ class Pool:
         add(("kernel", np.ones(4) / 4.0))
         add(("arr", np.array([2.0, 10.0, 50.0])))
         add(("tc", pd.DataFrame(index=np.array([0.5, 1.5, 2.5]), data=npr.uniform(0.5, 3, (3, 3)), columns=[1, 3, 7])))
+        # data with missing values (appended last: fixed pool indices above stay valid): operations that treat NaN specially
+        # (dropna, convolve / smooth, interpolate, reductions) must not repair the caller's array
+        vn = npr.randn(len(reg)); vn[[3, 50, 51, 120]] = np.nan
+        add(("tsd", nap.Tsd(reg, vn)))
+        fn = npr.randn(len(reg), 2); fn[[0, 77], [0, 1]] = np.nan
+        add(("frame", nap.TsdFrame(reg, fn, columns=["p", "q"])))
 
     def pick(self, kind):
         c = [o for k, o in self.objs if k == kind]
